@@ -101,7 +101,9 @@ def grep_gate():
 
 
 def regenerate(repo):
-	"""Run the translator on the repository's current .pyx sources.
+	"""Run the translators on the repository's current sources.  Each translator writes one Gen/*.v per
+	source group; when a group cannot be translated (fail closed) it writes a stub that does not compile,
+	so that exactly the files depending on it lose their .vo (see prune_stale).
 	Returns (ok, message)."""
 	src = os.path.join(repo, 'src', 'gambit', '_cython')
 	rc, out, err = sh([sys.executable, os.path.join(VERIF, 'tools', 'pyx2v.py'), src, os.path.join(TH, 'Gen')])
@@ -120,6 +122,56 @@ def make(jobs=16, timeout=3000):
 			raise BuildError('coq_makefile failed: ' + err)
 	rc, out, err = sh(f'timeout {timeout} make -k -j{jobs} 2>&1', cwd=COQ, timeout=timeout + 60)
 	return rc, out
+
+
+def _deps():
+	"""{'theories/X/Y.vo': ['theories/X/Y.v', 'theories/A/B.vo', ...]} from coq_makefile's dependency file"""
+	deps = {}
+	path = os.path.join(COQ, '.Makefile.d')
+	if not os.path.exists(path):
+		return deps
+	for line in open(path):
+		if ':' not in line:
+			continue
+		tg, ds = line.split(':', 1)
+		tg = tg.split()
+		if tg and tg[0].endswith('.vo'):
+			deps[tg[0]] = ds.split()
+	return deps
+
+
+def prune_stale(failed):
+	"""After `make -k`: remove the .vo of every file that failed to compile and, transitively, of every
+	file one of whose dependencies has no .vo or a newer one (make did not remake it because a dependency
+	failed).  Afterwards "the .vo exists" means "compiled in this state of the sources".  -> removed files"""
+	removed = []
+	def rm(vo):
+		base = os.path.join(COQ, vo[:-3])
+		for ext in ('.vo', '.vos', '.vok', '.glob'):
+			try:
+				os.remove(base + ext)
+			except OSError:
+				pass
+		removed.append(vo)
+	for f, _ in failed:
+		if f.endswith('.v') and os.path.exists(os.path.join(COQ, f[:-2] + '.vo')):
+			rm(f[:-2] + '.vo')
+	deps = _deps()
+	changed = True
+	while changed:
+		changed = False
+		for vo, ds in deps.items():
+			pvo = os.path.join(COQ, vo)
+			if not os.path.exists(pvo):
+				continue
+			t = os.path.getmtime(pvo)
+			for d in ds:
+				pd = os.path.join(COQ, d)
+				if not os.path.exists(pd) or os.path.getmtime(pd) > t + 1e-6:
+					rm(vo)
+					changed = True
+					break
+	return removed
 
 
 def failed_files(make_output):
@@ -180,6 +232,39 @@ def theorem_status(prop):
 	return res
 
 
+def build_partial_driver(prop):
+	"""Entry/Main.v does not build because the model of SOME property does not.  Build a driver from the
+	entry points that do (ocaml/partial/), so that properties whose own model is intact keep their
+	correspondence check.  -> (ok, message, driver path, numbers of the properties without a model)"""
+	have = [i for i in range(1, 21) if vo_ok(f'Entry/E{i:02d}')]
+	missing = [i for i in range(1, 21) if i not in have]
+	own = int(prop[1:]) if prop else None
+	if own is not None and own not in have:
+		return False, f'Entry/E{own:02d}.vo does not build (the model of {prop} does not compile)', None, missing
+	d = os.path.join(OCAML, 'partial')
+	os.makedirs(d, exist_ok=True)
+	main = open(os.path.join(TH, 'Entry', 'Main.v')).read()
+	a = main.index('Definition gv_dispatch')
+	head = main[:a]
+	head = re.sub(r'From GV Require Entry\.E01.*?Entry\.E20\.', 'From GV Require ' + ' '.join(f'Entry.E{i:02d}' for i in have) + '.', head, flags=re.S)
+	arms = ' '.join(f'| {i} => E{i:02d}.dispatch o a' for i in have)
+	text = (head + 'Definition gv_dispatch (op : Z) (a : val) : val :=\n  let p := op / 100 in\n  let o := op mod 100 in\n'
+	        f'  match p with\n  {arms}\n  | _ => vbad\n  end.\n')
+	write_if_changed(os.path.join(d, 'MainPartial.v'), text)
+	write_if_changed(os.path.join(d, 'ExtractPartial.v'),
+	                 'From Coq Require Extraction.\nFrom Coq Require Import ExtrOcamlBasic.\nFrom GVP Require Import MainPartial.\n'
+	                 'Extraction Language OCaml.\nExtraction "model.ml" gv_dispatch z_mul10_add z_divmod10 z_neg.\n')
+	for f in ('MainPartial.v', 'ExtractPartial.v'):
+		rc, out, err = sh(f'timeout 600 coqc -Q ../../coq/theories GV -Q . GVP {f}', cwd=d)
+		if rc != 0:
+			return False, f'partial driver: coqc {f} failed: ' + (out + err)[-400:], None, missing
+	rc, out, err = sh('cp ../driver.ml . && timeout 600 ocamlfind ocamlopt -O3 -w -a model.mli model.ml driver.ml -o model_driver', cwd=d)
+	drv = os.path.join(d, 'model_driver')
+	if rc != 0 or not os.path.exists(drv):
+		return False, 'partial driver: ocamlopt failed: ' + (out + err)[-400:], None, missing
+	return True, 'partial driver (no model for ' + ', '.join(f'C{i:02d}' for i in missing) + ')', drv, missing
+
+
 def build_driver(force=False):
 	"""Extract the model and build ocaml/model_driver if anything it depends on changed."""
 	drv = os.path.join(OCAML, 'model_driver')
@@ -214,7 +299,15 @@ def full_build(repo, prop=None, log=print):
 		state['failed'] = failed_files(out)
 		if rc != 0 and not state['failed']:
 			state['failed'] = [('?', out[-400:])]
+		state['pruned'] = prune_stale(state['failed'])
+		state['driver_path'] = os.path.join(OCAML, 'model_driver')
+		state['no_model'] = []
 		state['driver_ok'], state['driver_msg'] = build_driver()
+		if not state['driver_ok'] and not vo_ok('Entry/Main'):
+			ok, msg, path, missing = build_partial_driver(prop)
+			state['driver_ok'], state['driver_msg'], state['no_model'] = ok, msg, missing
+			if ok:
+				state['driver_path'] = path
 		if prop:
 			state['props'] = theorem_status(prop)
 	state['build_s'] = round(time.time() - t0, 1)
